@@ -375,4 +375,34 @@ def graphOKC (cond : Except Err (List String × List Fm)) (a : SAdf) (ac : List 
 
 def graphOK (code : String) (a : SAdf) (ac : List Nat) (g : GraphD) : String := graphOKC (conditions code) a ac g
 
+/-! ### the strengthened check of a stored ADF (implies `SrvA.Denotes`, see `ServerHybrid.lean`) -/
+
+/-- every inner node of the table tests one of the `n` declared statements -/
+def varsBelow (ns : Array Node) (n : Nat) : Bool :=
+  (List.range ns.size).all (fun i => decide (i < 2) ||
+    (match ns[i]? with | some nd => decide (nd.var < n) | none => true))
+
+/-- every root is an index of the table -/
+def rootsValid (ns : Array Node) (ac : List Nat) : Bool := ac.all (fun t => decide (t < ns.size))
+
+/-- `storedAdfOKC` as a Boolean, with two more conjuncts: the roots are indices of the table and every
+inner node of the table tests a declared statement (so comparing on the `2^n` assignments of the
+declared statements decides equality of the functions) -/
+def storedAdfChk (cond : Except Err (List String × List Fm)) (a : SAdf) : Bool :=
+  match cond with
+  | .error _ => false
+  | .ok (names, fs) =>
+    wfCheck a.nodes && (a.names == names) && (a.ac.length == fs.length) &&
+    rootsValid a.nodes a.ac && varsBelow a.nodes fs.length &&
+    (List.range fs.length).all (fun s =>
+      (List.range (2 ^ fs.length)).all (fun m =>
+        evalF a.nodes (a.nodes.size + 1) (a.ac.getD s 0) (WebSem.asgOf m) == (fs.getD s Fm.bot).sem (WebSem.asgOf m)))
+
+/-- the run-time check of a stored ADF the driver reports: `ok` iff `storedAdfChk` holds; otherwise the
+message of `storedAdfOK` if that one objects, else the new objection -/
+def storedAdfOK' (code : String) (a : SAdf) : String :=
+  if storedAdfChk (conditions code) a then "ok"
+  else if storedAdfOK code a != "ok" then storedAdfOK code a
+  else "violated variable-or-root-out-of-range"
+
 end ServerAdf
